@@ -16,15 +16,19 @@ from common import Ctx
 
 ID = "C07"
 PROPS = ["props/C07.v"]
-EXTRACTS = ["Solver"]
+EXTRACTS = ["Solver", "C14"]
 THEOREMS = ["C07_listing_order_free_partial", "C07_listing_order_tie_refuted", "C07_spelling_irrelevant",
-            "C07_sort_is_a_function_of_the_set_partial"]
+            "C07_sort_is_a_function_of_the_set_partial", "C07_index_page_listing_order_free_partial",
+            "C07_index_page_entry_independent_partial"]
 MODES = ["calm", "conflict", "extras", "dense"]
 RULE = ("(a) whole-compile correspondence of the real solver with the model, which is a function of the logical input; "
         "(b) metamorphic runs of the real code against its own base run: candidate listings shuffled, input lines and "
         "input files reordered, project names respelled (case, '-', '_', '.'), the same compile repeated after 1-3 unrelated "
         "compiles in the same process with every cache left warm, and the same cases run in sub-processes under other "
-        "PYTHONHASHSEED values; the solution text written by write_requirements_file must be byte-identical. "
+        "PYTHONHASHSEED values; the solution text written by write_requirements_file must be byte-identical; "
+        "(c) source trees walked in four directory orders and index pages (anchors with/without requires-python that admits or "
+        "excludes the interpreter) listed in four entry orders through the real SourceRepository / _scan_page_links: the offered "
+        "set must be the same, and every page is also run through the extracted page model (shared with C14). "
         "Non-trivial = base run succeeds with >= 2 pins; distinct = distinct (case, variant).")
 TRUSTED_BASE = SP.TRUSTED_BASE
 ASSUMPTIONS = SP.ASSUMPTIONS + [
@@ -41,7 +45,10 @@ TECHNIQUE = "Rocq theorems (permutation invariance of the stable sort / selectio
 
 
 def translate(ctx: Ctx) -> Dict[str, str]:
-    return SP.translate(ctx)
+    import c14 as C14M
+    out = dict(SP.translate(ctx))
+    out.update(C14M.translate(ctx))
+    return out
 
 
 def respell(rng, text: str) -> str:
@@ -128,9 +135,28 @@ def correspondence(ctx: Ctx) -> None:
         return base_cases
 
     base_cases = solverlib.in_big_thread(work)
+    # cases on which the code and the model (a function of the logical input) disagree are the first suspects for a
+    # dependence on the hash seed: they go first, and under more seeds
+    suspects = [mm["case"]["case"] for mm in ctx.mismatches
+                if isinstance(mm.get("case"), dict) and isinstance(mm["case"].get("case"), dict) and "universe" in mm["case"]["case"]][:12]
+    tmp = ctx.tmpdir()
+    if suspects:
+        sus = solverlib.in_big_thread(lambda: [(solverlib_clean(c), text_of(M, solverlib.run_impl(c, M, keep=True))) for c in suspects])
+        spath = tmp / "c07suspects.jsonl"
+        spath.write_text("\n".join(json.dumps(c) for c, _ in sus) + "\n")
+        for seed in range(1, 9):
+            env = dict(os.environ, PYTHONHASHSEED=str(seed), VERIF_REPO=str(common.REPO))
+            p = subprocess.run([common.PY, "-B", str(common.VERIF / "harness" / "c07_worker.py"), str(spath)],
+                               env=env, capture_output=True, text=True, timeout=3000)
+            outs = [json.loads(l) for l in p.stdout.split("\n") if l.startswith("{")]
+            for (c, bt), o in zip(sus, outs):
+                t = [o["kind"]] + ([o["text"]] if o["kind"] == "OK" else [])
+                ctx.count("variant:hash-seed(suspect)")
+                if t != bt and not any(f["variant"].startswith("hash-seed") for f in found):
+                    ctx.count("differs:hash-seed")
+                    found.append({"variant": f"hash-seed-{seed}", "base": c, "base_out": bt, "variant_out": t, "seed": seed})
     # hash seeds in sub-processes
     sub = base_cases[: ctx.n(120, 2500)]
-    tmp = ctx.tmpdir()
     path = tmp / "c07cases.jsonl"
     path.write_text("\n".join(json.dumps(c) for c, _ in sub) + "\n")
     for seed in ([1, 2] if ctx.tier == "quick" else [1, 2, 3, 5, 8, 13]):
@@ -170,6 +196,7 @@ def correspondence(ctx: Ctx) -> None:
     new_found += [f for f in found if f.get("changed") is None]
     ctx.extra["metamorphic_differences_on_impl"] = len(found)
     new_found += discovery_order_metamorphic(ctx)
+    new_found += index_page_order_metamorphic(ctx)
     ctx._found = new_found  # type: ignore[attr-defined]
     if new_found:
         ctx.mismatch("metamorphic", {"variant": new_found[0]["variant"], "base": new_found[0]["base"]},
@@ -242,6 +269,82 @@ def discovery_order_metamorphic(ctx: Ctx) -> List[Dict[str, Any]]:
     return out
 
 
+PAGE_RP = [None, None, None, ">=3.6", ">=2.7", "<3", "<3.0", ">=4", "!=3.8.*", ">=3.9", "<=3.7", "~=3.6", "garbage", ">=3.6,<4", "==2.7.*"]
+
+
+def gen_page_items(rng) -> List[str]:
+    """anchor lines of a simple index page: distinct files, requires-python absent / admitting / excluding / unreadable"""
+    lines, seen = [], set()
+    for _ in range(rng.choice([2, 3, 4, 5, 6])):
+        name = rng.choice(["foo", "foo_bar", "zope.interface"])
+        ver = rng.choice(["1.0", "1.5", "2.0", "2.0.1", "1.0rc1", "0.9.post1", "3.1"])
+        fn = rng.choice([f"{name}-{ver}-py3-none-any.whl", f"{name}-{ver}.tar.gz", f"{name}-{ver}.zip"])
+        if fn in seen:
+            continue
+        seen.add(fn)
+        href = rng.choice(["", "../../p/", "https://f.example.org/"]) + fn + rng.choice(["#sha256=" + "ab" * 32, ""])
+        rp = rng.choice(PAGE_RP)
+        attr = ""
+        if rp is not None:
+            attr = " " + rng.choice(["data-requires-python", "metadata-requires-python"]) + '="' + rp.replace("<", "&lt;").replace(">", "&gt;") + '"'
+        lines.append(f'<a href="{href}"{attr}>{fn}</a><br/>\n')
+    return lines
+
+
+def page_html(lines: List[str]) -> str:
+    return "<html><body>\n" + "".join(lines) + "</body></html>"
+
+
+def page_offered(html: str, triple) -> Any:
+    import c14 as C14M
+    obs, events, _ = C14M.impl_page(html, triple)
+    return obs, events, sorted(json.dumps(d, sort_keys=True) for d in obs["dists"])
+
+
+def index_page_order_metamorphic(ctx: Ctx) -> List[Dict[str, Any]]:
+    """The candidates _scan_page_links reads from a project page must not depend on the order of the page's entries;
+    every page is also run through the extracted page model (the one the C07 page theorems are about)."""
+    import c14 as C14M
+    rng = ctx.rng
+    out: List[Dict[str, Any]] = []
+    plines, pexp = [], []
+    for t in range(ctx.n(150, 2500)):
+        triple = rng.choice([(3, 8, 0), (3, 12, 1), (3, 6, 4), (2, 7, 18), (3, 9, 1)])
+        lines = gen_page_items(rng)
+        orders = [("listed", list(lines)), ("reversed", list(reversed(lines)))]
+        for k in ("shuffle-a", "shuffle-b"):
+            l2 = list(lines)
+            rng.shuffle(l2)
+            orders.append((k, l2))
+        base = None
+        for order, ls in orders:
+            html = page_html(ls)
+            obs, events, got = page_offered(html, triple)
+            plines.append("P {} {} {} {}".format(triple[0], triple[1], triple[2], C14M.enc_events(events)))
+            pexp.append((html, triple, obs))
+            ctx.count("variant:index-page-order")
+            ctx.count("page-entries-offered", len(got))
+            ctx.case(key=("page", html, triple), nontrivial=len(got) >= 1 and len(got) < len(ls),
+                     sample={"variant": "index-page-order:" + order, "html": html, "interp": triple, "offered": len(got)} if ctx.evaluations % 211 == 0 else None)
+            if base is None:
+                base = (html, got)
+            elif got != base[1] and not any(f["variant"].startswith("index-page-order") for f in out):
+                ctx.count("differs:index-page-order")
+                out.append({"variant": "index-page-order:" + order, "base": {"page": base[0], "interp": list(triple)},
+                            "changed_page": html, "base_out": base[1], "variant_out": got})
+    answers, _ = C14M.run_oracle(plines)
+    for (html, triple, obs), ans in zip(pexp, answers):
+        try:
+            got = C14M.parse_page_ans(ans)
+        except Exception:  # noqa: BLE001
+            got = {"raised": None, "dists": "?" + ans[:200]}
+        exp = {"raised": obs["raised"], "dists": obs["dists"]}
+        if json.dumps(got, sort_keys=True) != json.dumps(json.loads(json.dumps(exp)), sort_keys=True):
+            ctx.mismatch("index-page-model", {"interp": list(triple), "html": html}, exp, got)
+            break
+    return out
+
+
 def logging_off() -> None:
     import logging
     logging.disable(logging.CRITICAL)
@@ -265,12 +368,26 @@ def search(ctx: Ctx) -> Optional[Dict[str, Any]]:
         f = found[0]
         return {"input": {"base": f["base"], "changed": f.get("changed"), "variant": f["variant"]},
                 "why": f"output differs under '{f['variant']}' although the logical input is the same",
-                "base_output": f["base_out"], "variant_output": f["variant_out"]}
+                "base_output": f["base_out"], "variant_output": f["variant_out"], "changed_page": f.get("changed_page")}
     return SP.search(ctx, "C09", MODES) if False else None
 
 
 def replay(ctx: Ctx, payload: Dict[str, Any]) -> bool:
     fi = payload.get("failing_input")
+    if fi and fi.get("changed_page"):
+        t = tuple(fi["input"]["base"]["interp"])
+        return page_offered(fi["input"]["base"]["page"], t)[2] != page_offered(fi["changed_page"], t)[2]
+    if fi and str(fi["input"].get("variant", "")).startswith("hash-seed"):
+        seed = fi["input"]["variant"].rsplit("-", 1)[1]
+        tmp = ctx.tmpdir()
+        path = tmp / "replay.jsonl"
+        path.write_text(json.dumps(fi["input"]["base"]) + "\n")
+        outs = []
+        for sd in ("0", seed):
+            p = subprocess.run([common.PY, "-B", str(common.VERIF / "harness" / "c07_worker.py"), str(path)],
+                               env=dict(os.environ, PYTHONHASHSEED=sd, VERIF_REPO=str(common.REPO)), capture_output=True, text=True, timeout=3000)
+            outs.append([l for l in p.stdout.split("\n") if l.startswith("{")])
+        return outs[0] != outs[1]
     if not fi or not fi["input"].get("changed"):
         return False
     M = solverlib.mods()
